@@ -221,6 +221,7 @@ _c("VAddDefault", "op", "Float", "Float", [("addend", 1.0)], lambda d, w, addend
 _c("VAffine", "op", "Float", "Float", [("a", REQ), ("b", 0.5)], lambda d, w, a, b=0.5: a * d + b)
 _c("VMemoMul", "op", "Float", "Float", [("factor", REQ)], lambda d, w, factor: d * factor)
 _c("VInPlaceMul", "op", "Float", "Float", [("factor", 2.0)], lambda d, w, factor=2.0: d * factor)
+_c("VCollBumpLast", "op", "Coll", "Coll", [], lambda d, w: (list(d[:-1]) + [d[-1] + 1.0]) if d else [])
 _c("VPoly", "op", "Float", "Float", [("p", REQ), ("q", REQ), ("r", REQ), ("s", 0.0)], lambda d, w, p, q, r, s=0.0: p * d + q + r + s)
 _c("VAddNote", "op", "Float", "Float", [("addend", 1.0)], _addnote, created=("note",))
 _c("VCollSum", "op", "Coll", "Float", [("offset", 0.0)], lambda d, w, offset=0.0: float(sum(d)) + offset)
@@ -241,6 +242,7 @@ _c("CopyDataProbe", "probe", "Any", None, [], lambda d, w: as_data_object(d), re
 # context processors
 _c("VCtxScale", "ctx", "Any", None, [("base", REQ), ("k", 3.0)], _ctxscale, created=("scaled",))
 _c("VCtxMeta", "ctx", "Any", None, [("vmeta", None)], lambda d, w, vmeta=None: None)
+_c("VCtxBumpLast", "ctx", "Any", None, [("long_seq", REQ)], lambda d, w, long_seq: w("long_seq", list(long_seq[:-1]) + [long_seq[-1] + 1.0]), created=("long_seq",))
 _c("VHookedCtx", "ctx", "Any", None, [("hk_scale", 2.0)], _hooked, created=("hooked",))
 _c("VCtxWriteThenBoom", "ctx", "Any", None, [("base", 1.5)], _ctx_write_then_boom, created=("scaled",), fault="boom_after_write")
 _c("VCtxBadWriter", "ctx", "Any", None, [], _badwrite, created=("declared_only",), fault="undeclared_write")
@@ -251,6 +253,11 @@ _c("VFileSink", "sink", "Float", "Float", [("path", REQ)], _filesink)
 _c("VNullSink", "sink", "Float", "Float", [("tag", "t")], lambda d, w, tag="t": None)
 _c("VSrcDefaultSeries", "source", "NoData", "Coll", [("value", 42.0), ("n", 2)], lambda d, w, value=42.0, n=2: [float(value) + i for i in range(int(n))])
 _c("VNullSinkColl", "sink", "Coll", "Coll", [("tag", "t")], lambda d, w, tag="t": None)
+# same-named classes of two un-registered harness modules, referenced in the qualified module:Class form
+_c("vlib.components_extra:XSrcDefault", "source", "NoData", "Float", [("value", 7.0)], lambda d, w, value=7.0: float(value))
+_c("vlib.components_extra2:XSrcDefault", "source", "NoData", "Float", [("value", 9.5)], lambda d, w, value=9.5: float(value))
+_c("vlib.components_extra:XMulDefault", "op", "Float", "Float", [("factor", 3.0)], lambda d, w, factor=3.0: d * factor)
+_c("vlib.components_extra2:XMulDefault", "op", "Float", "Float", [("factor", 4.0)], lambda d, w, factor=4.0: d * factor)
 _c("VStore", "source", "NoData", "Float", [("value", 6.0)], lambda d, w, value=6.0: float(value))
 _c("VNoDocSrc", "source", "NoData", "Float", [("value", 3.0)], lambda d, w, value=3.0: float(value))
 _c("VNoDocSink", "sink", "Float", "Float", [("tag", "t")], lambda d, w, tag="t": None)
